@@ -31,6 +31,9 @@ Definition pr_op (o : op) : string :=
   | CAppend k d _ => "P:" ++ nat_to_string k ++ ":" ++ hex_of_bytes d
   | CSetUnbuf k d _ => "U:" ++ nat_to_string k ++ ":" ++ string_of_bytes d
   | OBufferizeFrom k _ => "BF:" ++ nat_to_string k
+  | OCopyInto fs _ => "CI:" ++ join "," (map pr_field fs)
+  | OAssignBytesInto k d _ =>
+    (if is_boolean_text d then "YIb:" else "YI:") ++ nat_to_string k ++ ":" ++ string_of_bytes d
   end.
 
 (* ---------- printing observations ---------- *)
@@ -57,9 +60,13 @@ Definition has_client (ops : list op) : bool :=
   existsb (fun o => match o with CWrite _ _ _ | CAppend _ _ _ | CSetUnbuf _ _ _ | OBufferizeFrom _ _ => true | _ => false end) ops.
 Definition has_reset (ops : list op) : bool :=
   existsb (fun o => match o with OReset => true | _ => false end) ops.
+(* a CopyTo / buffered Assign into a destination that is not fresh *)
+Definition has_reuse (ops : list op) : bool :=
+  existsb (fun o => match o with OCopyInto _ _ | OAssignBytesInto _ _ _ => true | _ => false end) ops.
 
 Definition case_line (id : string) (capname : string) (size : nat) (ops : list op) : string :=
-  let tags := capname ++ (if has_client ops then ",client" else "") ++ (if has_reset ops then ",reset" else "") in
+  let tags := capname ++ (if has_client ops then ",client" else "") ++ (if has_reset ops then ",reset" else "") ++
+              (if has_reuse ops then ",reuse" else "") in
   id ++ tab ++ tags ++ tab ++
   "cap=" ++ nat_to_string size ++ ";" ++ join ";" (map pr_op ops) ++ tab ++
   join "|" (trace true pr_state_model (init size) ops) ++ tab ++
@@ -71,8 +78,8 @@ Definition b (s : string) : list ascii := bytes_of_string s.
 Definition adds (o : op) : nat :=
   match o with
   | OBufferize _ _ | OBufferizeString _ _ | OAssignBytes _ _ | OAssignStr _ _ => 1
-  | OCopyTo fs _ => List.length fs
-  | OBufferizeFrom _ _ => 1
+  | OCopyTo fs _ | OCopyInto fs _ => List.length fs
+  | OBufferizeFrom _ _ | OAssignBytesInto _ _ _ => 1
   | _ => 0
   end.
 
@@ -81,7 +88,10 @@ Definition alphabet (n : nat) : list op :=
    OAssignBytes (b "42") 0; OAssignStr (b "7") 0; OAssignBytes (b "true") 0; OAssignStr (b "false") 0; OCopyTo [(true, b "e"); (false, b "fg")] 0; OReset] ++
   (if Nat.eqb n 0 then [] else
      [CWrite (n - 1) 0 "!"%char; CAppend 0 (b "Q") 0; CAppend (n - 1) (b "QQQQQQQQQ") 0;
-      CSetUnbuf 0 (b "5") 0; CSetUnbuf (n - 1) (b "123456789") 0; OBufferizeFrom (n - 1) 0; OBufferizeFrom 0 0]).
+      CSetUnbuf 0 (b "5") 0; CSetUnbuf (n - 1) (b "123456789") 0; OBufferizeFrom (n - 1) 0; OBufferizeFrom 0 0;
+      (* the destination object of the previous CopyTo is used again, with a shorter value that would fit in
+         what its fields still hold, while the values handed out before stay with their holders *)
+      OCopyInto [(true, b "h"); (false, b "i")] 0]).
 
 Fixpoint enum (depth : nat) (n : nat) : list (list op) :=
   match depth with
@@ -94,7 +104,7 @@ Definition first_len (ops : list op) : nat :=
   match ops with
   | OBufferize d _ :: _ | OBufferizeString d _ :: _ | OAcqRel d _ :: _
   | OAssignBytes d _ :: _ | OAssignStr d _ :: _ => List.length d
-  | OCopyTo ((_, d) :: _) _ :: _ => List.length d
+  | OCopyTo ((_, d) :: _) _ :: _ | OCopyInto ((_, d) :: _) _ :: _ => List.length d
   | _ => 1
   end.
 
@@ -113,8 +123,22 @@ Definition rnd_bytes (s : rng) (maxlen : nat) : list ascii * rng :=
 Definition rnd_digits (s : rng) : list ascii * rng :=
   let '(v, s1) := rng_pick s 100000 in (bytes_of_string (N_to_string v), s1).
 
+(* the field shapes the runner maps to a generated type: TestObject {Id, Name [, Finance.History[i].Comment]},
+   TestHistory {Comment}, TestObject1 {ByteSlice, *ByteSlicePtr, NestedStruct.S, NestedStruct.B} *)
+Definition shapes : list (list bool) :=
+  [[true; false]; [true; false; false]; [false]; [false; false; true; false]].
+
+Fixpoint rnd_fields (sh : list bool) (s : rng) : list (bool * list ascii) * rng :=
+  match sh with
+  | [] => ([], s)
+  | k :: r => let '(d, s1) := rnd_bytes s 4 in let '(fs, s2) := rnd_fields r s1 in ((k, d) :: fs, s2)
+  end.
+
+Definition rnd_shape (s : rng) : list (bool * list ascii) * rng :=
+  let '(i, s1) := rng_nat s (List.length shapes) in rnd_fields (nth i shapes [true; false]) s1.
+
 Definition rnd_op (s : rng) (n : nat) : op * rng :=
-  let '(c, s1) := rng_nat s (if Nat.eqb n 0 then 9 else 17) in
+  let '(c, s1) := rng_nat s (if Nat.eqb n 0 then 9 else 21) in
   match c with
   | 0 => let '(d, s2) := rnd_bytes s1 6 in (OBufferize d 0, s2)
   | 1 => let '(d, s2) := rnd_bytes s1 6 in (OBufferizeString d 0, s2)
@@ -123,8 +147,7 @@ Definition rnd_op (s : rng) (n : nat) : op * rng :=
          (OAssignBytes (if Nat.eqb k 0 then b "true" else if Nat.eqb k 1 then b "false" else d) 0, s3)
   | 4 => let '(d, s2) := rnd_digits s1 in let '(k, s3) := rng_nat s2 4 in
          (OAssignStr (if Nat.eqb k 0 then b "false" else if Nat.eqb k 1 then b "true" else d) 0, s3)
-  | 5 => let '(d1, s2) := rnd_bytes s1 4 in let '(d2, s3) := rnd_bytes s2 4 in
-         let '(d3, s4) := rnd_bytes s3 4 in (OCopyTo [(true, d1); (false, d2); (false, d3)] 0, s4)
+  | 5 => let '(fs, s2) := rnd_shape s1 in (OCopyTo fs 0, s2)
   | 6 => let '(d, s2) := rnd_bytes s1 40 in (OBufferize d 0, s2)
   | 7 => let '(k, s2) := rng_nat s1 12 in
          (if Nat.eqb k 0 then OReset else OBufferize (b "") 0, s2)
@@ -133,7 +156,10 @@ Definition rnd_op (s : rng) (n : nat) : op * rng :=
          let '(c, s4) := rng_pick s3 256 in (CWrite k i (ascii_of_N c), s4)
   | 11 | 12 | 13 => let '(k, s2) := rng_nat s1 n in let '(d, s3) := rnd_bytes s2 5 in (CAppend k d 0, s3)
   | 14 => let '(k, s2) := rng_nat s1 n in let '(d, s3) := rnd_digits s2 in (CSetUnbuf k d 0, s3)
-  | _ => let '(k, s2) := rng_nat s1 n in (OBufferizeFrom k 0, s2)
+  | 15 | 16 => let '(k, s2) := rng_nat s1 n in (OBufferizeFrom k 0, s2)
+  | 17 | 18 | 19 => let '(fs, s2) := rnd_shape s1 in (OCopyInto fs 0, s2)
+  | _ => let '(k, s2) := rng_nat s1 n in let '(d, s3) := rnd_digits s2 in let '(j, s4) := rng_nat s3 6 in
+         (OAssignBytesInto k (if Nat.eqb j 0 then b "true" else if Nat.eqb j 1 then b "false" else d) 0, s4)
   end.
 
 Fixpoint rnd_ops (len : nat) (s : rng) (n : nat) : list op * rng :=
